@@ -21,10 +21,7 @@ UNITS = [
     U("remove", "h_remove", "w_List_remove", ["remove.middle", "remove.only"]),
     U("swap", "h_swap", "w_List_swap", ["swap.empty_with_full", "swap.full_with_full"]),
     B("copy+dtor.bounded", "h_b_copy", ["b_copy.return"]),
-    B("assign.bounded", "h_b_assign", ["b_assign.other"], defs=["NV_ALIAS=0", "NV_BK=2"], bound="lists of at most 2 elements, values symbolic", timeout=1500),
-    B("assign@self.bounded", "h_b_assign", ["b_assign.self"], defs=["NV_ALIAS=1", "NV_BK=2"], bound="lists of at most 2 elements, values symbolic", timeout=1500),
     B("clear+find+eq.bounded", "h_b_clear_find_eq", ["b_clear_find_eq.return"]),
-    B("sort.bounded", "h_b_sort", ["b_sort.return"], object_bits=10, timeout=1500),
     B("append_list.bounded", "h_b_append_list", ["b_append_list.return"]),
 ]
 TRUSTED = ["cbmc 6.11.0 / goto-instrument DFCC / CaDiCaL", "goto-cc C++ front end; List.hpp with compat rule R1"]
@@ -32,8 +29,8 @@ ASSUMPTIONS = [
     "ONLY List is covered (Array and PoolList are not: Array<T>/PoolList<T> need class-typed T and explicit ->~T() calls goto-cc rejects)",
     "step contracts (insert, remove, swap) hold for ANY list: the neighbourhood (position, predecessor, free item, sentinel) is symbolic, "
     "the rest of the list is unconstrained; sequence semantics follows from the relinking postconditions by induction over operations (paper)",
-    "operations that walk the whole list (copy, assignment, clear, find, ==, sort, append(list), destruction) are BOUNDED stand-ins "
-    "(<= 3 elements, <= 2 for assignment) and not counted as proved",
+    "operations that walk the whole list: copy, clear, find, ==, !=, append(list), destruction are BOUNDED stand-ins (<= 3 elements) and not counted as proved; "
+    "operator= and sort have harnesses (h_b_assign, h_b_sort) but cbmc runs out of memory / returns solver errors on them, they are NOT checked",
     "element construction / destruction counts (C04) are not checked: goto-cc does not run member destructors in explicit destructor calls",
 ]
 EXPLANATION = ("List::insert / remove / swap are verified against relinking contracts with exact frames over symbolic neighbourhoods; "
